@@ -78,6 +78,18 @@ def record_all(progs, inputs_by_src, rng, chunk_mode, chunk_limit, sanitize=Fals
                     out.append({'key': (p.pid, data.hex(), tuple(parts)), 'prog': p, 'data': data, 'parts': parts, 'rec': res})
         finally:
             rec.close()
+            # sanitizer verdict at process exit (LeakSanitizer): non-zero exit of a run that answered every command
+            try:
+                rc = rec.proc.returncode
+                if sanitize and rc not in (0, None) and out and all(o['rec']['status'] == 'ok' for o in out):
+                    err = ''
+                    try:
+                        err = rec.proc.stderr.read()[-1500:]
+                    except Exception:
+                        pass
+                    out[-1]['rec'] = dict(out[-1]['rec'], status='died', stderr='exit code %s at process end: %s' % (rc, err))
+            except Exception:
+                pass
         return out
 
     with ThreadPoolExecutor(nthreads) as ex:
